@@ -9,6 +9,12 @@ RULE = ("Cli.tla is the process outcome machine Start -> Parse -> Read -> Comput
         "field). Each scenario is concretised (mutations with VERIF_SEED-seeded bytes, several seeds per class) and run on the "
         "binary: a panic is exit status 101 / death by signal / 'panicked at'; a non-zero exit must come with a diagnostic; "
         "stat must succeed where admissible and fail on wrong dimensionality. Non-trivial/distinct: distinct scenario.")
+RULE_ARGS = (" CliArgs.tla is the command-line grammar as a token-consuming machine over the option tables of the four tools "
+             "(once-only, repeatable, exclusive groups, conflicts, required) followed by the input-resolution rule (path / "
+             "terminal on stdin / SFS_ALLOW_STDIN); TLC enumerates every command line of up to 3 (thorough 4) option occurrences "
+             "incl. malformed tokens and checks that the verdict is order-free and that members of an exclusive group never both "
+             "reach the tool; every line is run on the binary (a pseudo-terminal is opened where stdin is a terminal): usage "
+             "errors must be exit status 2 with a diagnostic and no output, accepted lines must not be usage errors.")
 ASSUME = ["grid scenarios are exhaustive in the bound (model-checked case table); mutated bytes are seeded exploration: TLC "
           "enumerates where and how a file is damaged, not the bytes",
           "binary length fields are damaged to values below 16 MiB to keep allocations cheap"]
@@ -17,7 +23,10 @@ ASSUME = ["grid scenarios are exhaustive in the bound (model-checked case table)
 def run(tier):
     import os
     env = {"CLI_MUTATION_SEEDS": "3" if tier == "quick" else "25"}
-    stages = [("MCCli", "MCCli_quick.cfg" if tier == "quick" else "MCCli_t1.cfg", "cli")]
-    rep = standard("C17", tier, "model_checking", RULE, ASSUME, stages,
-                   sabotage=[("MCCli", "MCCli_abPanics.cfg", ["NoPanic"])], exhaustive=False, replay_env=env)
+    stages = [("MCCli", "MCCli_quick.cfg" if tier == "quick" else "MCCli_t1.cfg", "cli"),
+              ("MCCliArgs", "MCCliArgs_t1.cfg" if tier == "quick" else "MCCliArgs_t2.cfg", "cliargs")]
+    rep = standard("C17", tier, "model_checking", RULE + RULE_ARGS, ASSUME, stages,
+                   sabotage=[("MCCli", "MCCli_abPanics.cfg", ["NoPanic"]),
+                             ("MCCliArgs", "MCCliArgs_abNoGroups.cfg", ["NoPanic", "ExclusiveGroupsRespected"])],
+                   exhaustive=False, replay_env=env)
     return rep
